@@ -13,6 +13,7 @@
   from the real `spectra.define_hist_bins`).
 -/
 import EmdModel.Maps
+import EmdModel.Cycles
 
 namespace CycleStats
 open Maps
@@ -105,6 +106,13 @@ def phaseAlign (ip x : List Rat) (cv : List Int) (bins : List Rat) : Except Err 
   else if cv.length ≠ ip.length ∨ ip.length ≠ x.length then .error .valueError
   else sequence ((List.range (nLabels cv)).map fun k => alignCycle ip x (mapCycleToSamples cv k) bins)
 
+/-- phase_align(ip, x) with `cycles=None`: `cycles = get_cycle_vector(ip, return_good=False)` — all cycles
+    of the phase SUPPLIED, default `phase_step` (`dstep`, the double 1.5*pi), no mask.  A function of the
+    phase VALUES: nothing of an earlier call (on the same array object or any other) enters. -/
+def phaseAlignDefault (g : Cycles.GoodCfg) (dstep : Rat) (ip x : List Rat) (bins : List Rat) :
+    Except Err (List (List (Option Rat))) :=
+  phaseAlign ip x (Cycles.getCycleVectorOpt g dstep none false ip (List.replicate ip.length true)) bins
+
 /-! ## phase binning -/
 
 /-- `np.digitize(v, edges)` for increasing edges: number of edges ≤ v -/
@@ -170,6 +178,18 @@ def handle (o : Op) : Option String :=
       let some cv := toInts? cvr | return "bad-op"
       let some bins := o.vec? 3 | return "bad-op"
       match phaseAlign ip x cv bins with
+      | .error e => return "err " ++ e.name
+      | .ok cols => return s!"ok n={cols.length}" ++ String.join (cols.map fun c => " | " ++ fmtOptRats c)
+  | "PALIGND" => some <| Id.run do
+      -- cycles=None: the model detects the cycles itself (`Cycles.getCycleVectorOpt` with the argument omitted)
+      let some dstep := o.rat? "dstep" | return "bad-op"
+      let some edge := o.rat? "edge" | return "bad-op"
+      let some twopi := o.rat? "twopi" | return "bad-op"
+      let some endlo := o.rat? "endlo" | return "bad-op"
+      let some ip := o.vec? 0 | return "bad-op"
+      let some x := o.vec? 1 | return "bad-op"
+      let some bins := o.vec? 2 | return "bad-op"
+      match phaseAlignDefault { edge, twopi, endlo } dstep ip x bins with
       | .error e => return "err " ++ e.name
       | .ok cols => return s!"ok n={cols.length}" ++ String.join (cols.map fun c => " | " ++ fmtOptRats c)
   | "BINPH" => some <| Id.run do
